@@ -265,7 +265,58 @@ def gen_defaults():
     return "\n".join(out) + "\n"
 
 
-TABLES = {"EasingTable": gen_easing, "LerpTypes": gen_lerp_types, "Defaults": gen_defaults}
+def gen_macro_consts():
+    T = "MacroConsts"
+    src = strip_comments(read("macros/src/fn_timeline.rs"))
+    m = re.search(r"fn seconds_multiplier\(num_lit: &NumericLit\) -> Result<f32>\s*\{\s*match num_lit\.suffix\(\)\s*\{(.*?)\n\s*\}\s*\}", src, flags=re.S)
+    if not m:
+        raise TieBroken(T, "fn seconds_multiplier not found")
+    mult = []
+    for a in re.finditer(r'"(\w*)"\s*=>\s*Ok\(([^)]+)\)', m.group(1)):
+        mult.append((a.group(1), parse_dec(a.group(2), T)))
+    if not mult or not re.search(r"_\s*=>\s*Err\(", m.group(1)):
+        raise TieBroken(T, "seconds_multiplier arms changed")
+    km = re.search(r"let normalized_time = match &config\.position\s*\{(.*?)\};", src, flags=re.S)
+    if not km:
+        raise TieBroken(T, "keyframe position match not found")
+    body = km.group(1)
+    fm = re.search(r"KeyframePositionArgument::From\(_\)\s*=>\s*([\d.]+)", body)
+    tm = re.search(r"KeyframePositionArgument::To\(_\)\s*=>\s*([\d.]+)", body)
+    pm = re.search(r"KeyframePositionArgument::Percent\(lit, _\)\s*=>\s*lit\.as_f32\(\)\?\s*\*\s*([\d.]+)", body)
+    if not (fm and tm and pm):
+        raise TieBroken(T, "From/To/Percent arms changed")
+    sm = re.search(r'match lit\.suffix\(\)\s*\{\s*((?:"\w+"\s*\|?\s*)+)=>\s*config\.duration = Some\(input\.parse\(\)\?\),\s*"(\w+)"\s*=>\s*config\.repeat = Some\(input\.parse\(\)\?\),\s*""\s*if lookahead_input\.peek\(Token!\[%\]\)\s*=>\s*config\.keyframes\.push\(input\.parse\(\)\?\),', src)
+    if not sm:
+        raise TieBroken(T, "suffix dispatch in TimelineConfig::parse changed")
+    dur_suffixes = re.findall(r'"(\w+)"', sm.group(1))
+    rep_suffix = sm.group(2)
+    # the peek order of the argument loop
+    order = re.findall(r"input\.peek\((Token!\[for\]|kw::after|kw::reverse|kw::infinite|kw::from|Lit)\)", src[src.index("impl Parse for TimelineConfig"):])
+    if order[:6] != ["Token![for]", "kw::after", "kw::reverse", "kw::infinite", "kw::from", "Lit"]:
+        raise TieBroken(T, f"argument loop order changed: {order[:6]}")
+    for need in [r"times: u32 = lit_int\.base10_parse\(\)\?", r"\.repeat\(::mina::Repeat::Times\(#times\)\)", r"\.repeat\(::mina::Repeat::Infinite\)",
+                 r"config\.reverse\.map\(\|_\| quote! \{ \.reverse\(true\) \}\)", r"if config\.timelines\.len\(\) == 1",
+                 r"duration\.value\.as_f32\(\)\? \* seconds_multiplier\(&duration\.value\)\?", r"delay\.value\.as_f32\(\)\? \* seconds_multiplier\(&delay\.value\)\?"]:
+        if not re.search(need, src):
+            raise TieBroken(T, f"expansion pattern missing: {need}")
+    def d(p):
+        neg, digits, e = p
+        if neg: raise TieBroken(T, "negative constant")
+        return f"({digits}, {e})"
+    out = ["/-! GENERATED by lib/gen_tables.py from macros/src/fn_timeline.rs — do not edit. -/", "namespace Gen\n",
+           "/-- `seconds_multiplier`: suffix ↦ factor as (digits, decimal exponent) -/",
+           "def secondsMultipliers : List (String × (Nat × Nat)) := [" + ", ".join(f'("{s}", {d(p)})' for s, p in mult) + "]",
+           "/-- literal suffixes the argument loop reads as a duration / as a repeat count -/",
+           "def durationSuffixes : List String := [" + ", ".join(f'"{s}"' for s in dur_suffixes) + "]",
+           f'def repeatSuffix : String := "{rep_suffix}"',
+           f"def fromPosition : Nat × Nat := {d(parse_dec(fm.group(1), T))}",
+           f"def toPosition : Nat × Nat := {d(parse_dec(tm.group(1), T))}",
+           f"def percentFactor : Nat × Nat := {d(parse_dec(pm.group(1), T))}",
+           "\nend Gen"]
+    return "\n".join(out) + "\n"
+
+
+TABLES = {"EasingTable": gen_easing, "LerpTypes": gen_lerp_types, "Defaults": gen_defaults, "MacroConsts": gen_macro_consts}
 
 
 def main():
